@@ -308,6 +308,14 @@ def State.isClosed (s : State α) : Bool := match s.status with | .active => fal
 def State.hasThrown (s : State α) : Bool := match s.status with | .errored _ _ => true | _ => false
 def State.isCompleted (s : State α) : Bool := match s.status with | .completed => true | _ => false
 
+/-! ### multicast, micro-steps: a broadcast is a loop, and `Unsubscribe` does not take `s.mu`.
+    `subscriberImpl.Unsubscribe` (subscriber.go:259-263) is a CAS on the subscriber's own status
+    followed by the teardown `s.observers.Delete(index)` — neither waits for the subject's mutex —
+    so it can run between two iterations of `broadcastNext`'s `Range` (subject_publish.go:201-206).
+    `visitNext` is one such iteration; `broadcastNext s c v = s.observers.foldl (visitNext · · c v) s`. -/
+
+def visitNext (s : State α) (i : Nat) (c : Ctx) (v : α) : State α := subNext s i c v
+
 /-! ### unicast, micro-steps: the part under `s.mu` and the deferred delivery are two actions.
     A thread that called `Next`/`Error`/`Complete` first runs `lockedPart` (atomically, under the
     mutex), which may leave it a pending delivery to the captured subscriber; `deliver` is that
